@@ -111,3 +111,27 @@ package ghprovider
 //@   ensures foralls(k, old(has(provider.views, k)) ==> has(provider.views, k) && provider.views[k] == old(provider.views[k]))
 //@   trace_ensures old(has(provider.views, key)) : ^$
 //@   trace_ensures !old(has(provider.views, key)) && err == nil : ^LAYOUT CLONE LOADER WALK $
+
+// the three walks (helpers, layout, view) load a file iff its path ends with the provider's
+// extension - whatever that extension looks like - and load exactly that path
+//@ func (*Provider).base$1 [C19]
+//@   layers contract trace
+//@   requires provider != nil && provider.fs != nil
+//@   trace (*TemplateLoader).Load as LOAD
+//@   at_call (*TemplateLoader).Load requires $2 == path
+//@   trace_ensures hassuffix(path, provider.extension) : ^LOAD $
+//@   trace_ensures !hassuffix(path, provider.extension) : ^$
+//@ func (*Provider).layout$1 [C19]
+//@   layers contract trace
+//@   requires provider != nil && provider.fs != nil
+//@   trace (*TemplateLoader).Load as LOAD
+//@   at_call (*TemplateLoader).Load requires $2 == path
+//@   trace_ensures hassuffix(path, provider.extension) : ^LOAD $
+//@   trace_ensures !hassuffix(path, provider.extension) : ^$
+//@ func (*Provider).view$1 [C19]
+//@   layers contract trace
+//@   requires provider != nil && provider.fs != nil
+//@   trace (*TemplateLoader).Load as LOAD
+//@   at_call (*TemplateLoader).Load requires $2 == path
+//@   trace_ensures hassuffix(path, provider.extension) : ^LOAD $
+//@   trace_ensures !hassuffix(path, provider.extension) : ^$
